@@ -161,7 +161,11 @@ func findEndTime(moov *mp4.MoovBox, durationMS int) (endTime, endTimescale uint6
 	stss := stbl.Stss
 	if stss != nil {
 		foundSyncFrame := false
-		for sampleNr := lastSampleNr; sampleNr <= stss.SampleNumber[len(stss.SampleNumber)-1]; sampleNr++ {
+		var lastSyncNr uint32 // stays 0 for an stss box without entries (no sync samples at all)
+		if len(stss.SampleNumber) > 0 {
+			lastSyncNr = stss.SampleNumber[len(stss.SampleNumber)-1]
+		}
+		for sampleNr := lastSampleNr; sampleNr <= lastSyncNr; sampleNr++ {
 			if stss.IsSyncSample(sampleNr) {
 				lastSampleNr = sampleNr - 1
 				foundSyncFrame = true
